@@ -212,6 +212,63 @@ def _pre_idx(s0, s1, n, ext_i, comp_i, beh_i):
     return True
 
 
+def _formats_written(stem, ext, comp, beh, proxied, qualities, force_fasta, layout):
+    """-> the formats that reach the output file(s), or None if the number of files is wrong"""
+    path = stem + ext + comp
+    opener = StubOpener(beh)
+    outfiles = OutputFiles(proxied=proxied, qualities=qualities, interleaved=(layout == "interleaved"), file_opener=opener)
+    if layout == "two_files":
+        paths = (path, stem + "2" + ext + comp)
+    else:
+        paths = (path,)
+    writer = outfiles.open_record_writer(*paths, interleaved=(layout == "interleaved"), force_fasta=force_fasta)
+    if layout == "single":
+        writer.write(_record(qualities))
+    else:
+        writer.write(_record(qualities, "r"), _record(qualities, "r"))
+    if proxied:
+        firsts = [c[:1] for c in writer.drain()]
+    else:
+        writer.close()
+        firsts = [s.first_byte() for s in opener.sinks]
+    if len(firsts) != len(paths):
+        return None
+    return [_observe(f) for f in firsts]
+
+
+CASES = ["lower", "UPPER", "Capitalised"]
+
+
+def _cased(ext, case):
+    if case == "UPPER":
+        return ext.upper()
+    if case == "Capitalised":
+        return ext[:1] + ext[1:2].upper() + ext[2:]
+    return ext
+
+
+def check_same_for_every_container_and_core_count(s0: int, ext_i: int, case_i: int, comp_i: int, beh_i: int, proxied: bool) -> bool:
+    """
+    pre: 0 <= s0 < len(STEM_ALPHABET) and 0 <= ext_i <= 3 and 0 <= case_i < len(CASES) and 0 <= comp_i < len(COMPS) and 0 <= beh_i < len(NAME_BEHAVIOURS)
+    post: _
+    """
+    # "identically for every compression suffix and every number of cores", also for names whose extension is written in
+    # upper or mixed case (whether such a name counts as a FASTA/FASTQ name is not what is asked here): the format that
+    # reaches the file must be the one that the same name gets as a plain file written with one core
+    stem = STEM_ALPHABET[_conc(s0, 0, len(STEM_ALPHABET) - 1)]
+    if stem == ".":
+        return True
+    ext = _cased(EXTS[_conc(ext_i, 0, 3)], CASES[_conc(case_i, 0, len(CASES) - 1)])
+    comp = COMPS[_conc(comp_i, 0, len(COMPS) - 1)]
+    beh = NAME_BEHAVIOURS[_conc(beh_i, 0, len(NAME_BEHAVIOURS) - 1)]
+    if beh not in ENV.get(comp, {}):
+        return True
+    layout = _PARAM.get("layout", "single")
+    reference = _formats_written(stem, ext, "", "path", False, True, False, layout)
+    got = _formats_written(stem, ext, comp, beh, True if proxied else False, True, False, layout)
+    return reference is not None and got == reference
+
+
 def _body(stem, ext, comp, beh, proxied, qualities, force_fasta, layout):
     path = stem + ext + comp
     want = ref_format(ext, qualities)
@@ -320,6 +377,8 @@ for _layout in LAYOUTS:
     CONDITIONS.append({"name": "file/%s/indexed_path/stem1" % _layout, "fn": "check_file_idx", "timeout": 900, "param": {"layout": _layout, "max_n": 1}})
     CONDITIONS.append({"name": "file/%s/indexed_path/stem2" % _layout, "fn": "check_file_idx", "timeout": 3000, "thorough_only": True, "param": {"layout": _layout, "max_n": 2}})
 CONDITIONS.append({"name": "stdout", "fn": "check_stdout", "timeout": 300, "param": {}})
+for _layout in ("single", "two_files"):
+    CONDITIONS.append({"name": "same_for_every_container_and_core_count/%s" % _layout, "fn": "check_same_for_every_container_and_core_count", "timeout": 900, "param": {"layout": _layout}})
 
 
 def describe():
@@ -330,7 +389,7 @@ def describe():
                    "cores": "one (writers on the opened files) or several (ProxyRecordWriter on memory buffers), symbolic", "input": "with or without qualities, symbolic", "--fasta": "symbolic",
                    "layout": "one file, two files, one interleaved file", "standard output": "open_stdout_record_writer and open_record_writer('-'), proxied or not, interleaved or not",
                    "name behaviour of the opened file": "symbolic among the behaviours the installed xopen shows for the suffix: %r" % ({k: sorted(v) for k, v in ENV.items()},)},
-        "outside_bounds": ["the first sentence of C19 (equal records for every container and layout): compiled library code on OS files", "upper-case extensions and extensions other than those listed", "names whose stem consists of dots only (a leading-dot name has no extension)",
+        "outside_bounds": ["the first sentence of C19 (equal records for every container and layout): compiled library code on OS files", "extensions other than those listed (upper- and mixed-case spellings of the four format extensions are covered by the consistency condition only: same format as the plain one-core file of that name)", "names whose stem consists of dots only (a leading-dot name has no extension)",
                            "a FASTQ name for input without qualities (dnaio raises an error)", "longer stems"],
         "stubs": ["StubOpener.xopen: returns a byte sink whose .name is the path, '' or absent (symbolic, restricted to what the installed xopen shows for that suffix; probed on every run with threads 0/1/4)",
                   "cutadapt.files.sys for the standard-output conditions: stdout.buffer is a byte sink named '<stdout>'"],
@@ -391,7 +450,7 @@ def _cex_args(cex):
 def replay(cex):
     ok, detail = e2_replay(cex)
     if not ok or cex.get("condition") not in ("check_file", "check_file_idx"):
-        return ok, detail
+        return ok, detail          # (the consistency and stdout conditions are replayed against the stubs only)
     # second stage: the same counterexample with the real FileOpener and the real xopen on a real file
     try:
         stem, ext, comp, beh, proxied, qualities, force_fasta, layout = _cex_args(cex)
